@@ -285,7 +285,16 @@ func NewParametersFromLiteral(residualParameters ckks.Parameters, btpLit Paramet
 		for i < k {
 
 			for {
-				qi, err := g.NextAlternatingPrime()
+				var qi uint64
+				var err error
+
+				// As in rlwe.GenModuli, 61-bit primes are taken below 2^61:
+				// a prime above 2^61 exceeds the size supported by the NTT.
+				if logqi == 61 {
+					qi, err = g.NextDownstreamPrime()
+				} else {
+					qi, err = g.NextAlternatingPrime()
+				}
 
 				if err != nil {
 					return Parameters{}, fmt.Errorf("cannot NewParametersFromLiteral: NextAlternatingPrime for 2^{%d} +/- k*2N + 1: %w", logqi, err)
